@@ -15,6 +15,8 @@ def extra(ck, tier, vh):
     nchunks, per = (8, 1500) if not thorough else (16, 12000)
     nev, bads, samples = record_and_validate(ck, vh, ["run", "record"], "RunLoopTrace", "RunLoopTrace.cfg", "run.ndjson", nchunks, per)
     for b in bads:
+        if b["ev"]["k"] in ("pair", "textpair"):
+            continue        # traced vs untraced / Logger kinds: that is C14's statement, judged by its own check
         ck.violation("RunUntil chunk %d line %d: %s: %s" % (b["chunk"], b["line"], b["why"], json.dumps(b["ev"])[:300]), b)
     k = 0
     for e in samples:
